@@ -124,6 +124,12 @@ static std::string case_text(int pers, const hg::Exchange &x, const std::vector<
     return s;
 }
 
+// Trace points T1 T6 T7 lie on the response side, T5 on the request side: a failure about the other side is never attributed through them
+static std::string side_site(const std::string &what, const std::string &site) {
+    bool res_side = what.rfind("response_", 0) == 0 || what == "transaction_count", req_side = what.rfind("request_", 0) == 0 || what == "transaction_count"; std::string o;
+    for (size_t p = 0; p < site.size();) { size_t e = site.find('+', p + 1); std::string t = site.substr(p, e == std::string::npos ? std::string::npos : e - p); if ((t == "+T5") ? req_side : res_side) o += t; if (e == std::string::npos) break; p = e; }
+    return o;
+}
 static std::pair<std::string, std::string> check(int pers, const hg::Exchange &x, const std::vector<size_t> &qc, const std::vector<size_t> &sc, std::string *site) {
     Run r; run_exchange(pers, x.req_wire(), x.res_wire(), qc, sc, r);
     for (int t : {1, 5, 6, 7}) if (r.res.trace_hits.count(t)) *site += "+T" + std::to_string(t);
@@ -154,6 +160,7 @@ static void campaign() {
             std::string site; auto d = check(pers, x, qc, sc, &site);
             if (counting) { g_stats.evaluations++; g_stats.cls(qc.empty() && sc.empty() ? "whole_delivery" : "chunked_delivery"); }
             if (A.mode == "c01") d.first.clear(); // --mode c01: the same generated exchanges serve C01; only sanitizer reports count there
+            site = side_site(d.first, site);
             if (!d.first.empty()) { std::string sig = "C02:" + d.first + site; if (A.is_known(sig)) { if (counting) g_stats.attributed[sig]++; return {}; } return rcx::Fail{sig, text, d.second}; }
             return {};
         };
@@ -180,6 +187,7 @@ static int replay(const std::string &path) {
     }
     std::string site; auto d = check(pers, x, qc, sc, &site);
     if (d.first.empty()) { printf("REPLAY-OK\n"); return 0; }
+    site = side_site(d.first, site);
     printf("REPLAY-FAIL sig=C02:%s%s\n%s\n", d.first.c_str(), site.c_str(), d.second.c_str()); return 1;
 }
 
